@@ -602,7 +602,7 @@ def apply_op(t, x, op):
         raise ValueError(k)
 
 
-def run_hist(t, v, ops):
+def run_hist(t, v, ops, fresh=False):
     T = mk_type(t)
     out = []
 
@@ -630,8 +630,10 @@ def run_hist(t, v, ops):
         (_, again) = hashes_during(lambda: E(lambda: x.hash_tree_root().hex()))
         put('%d.pagain' % k, str(again))
         put('%d.pshare' % k, E(lambda: share_info(old_backing, x.get_backing())))
+        put('%d.pleaves' % k, E(lambda: share_leaves(old_backing, x.get_backing())))
         put('%d.pshape' % k, E(lambda: shape_digest(x.get_backing())[:8].hex()))
-        put('%d.pfresh' % k, E(lambda: fresh_agreement(t, x)))
+        if fresh:
+            put('%d.pfresh' % k, E(lambda: fresh_agreement(t, x)))
     return ';'.join(out)
 
 
@@ -672,6 +674,40 @@ def share_info(a, b):
             stack.append((None, y.get_left(), 2 * g))
             stack.append((None, y.get_right(), 2 * g + 1))
     return ','.join(str(g) for g in sorted(fresh))
+
+
+def share_leaves(a, b):
+    """generalized indices where the new tree b has a LEAF that is not the very same object as the node
+    of the old tree a at that position (positions the old tree does not have are skipped)"""
+    fresh = []
+    stack = [(a, b, 1)]
+    while stack and len(fresh) < 400:
+        x, y, g = stack.pop()
+        if x is y:
+            continue
+        if y.is_leaf():
+            fresh.append(g)
+            continue
+        if not x.is_leaf():
+            stack.append((x.get_left(), y.get_left(), 2 * g))
+            stack.append((x.get_right(), y.get_right(), 2 * g + 1))
+    return ','.join(str(g) for g in sorted(fresh))
+
+
+def offpath_unshared(a, b, g):
+    """number of siblings along the path to gindex g at which the new tree b does not hold the very same
+    node object as the old tree a (as far as the old tree reaches)"""
+    bad = 0
+    for bit in bin(g)[3:]:
+        if a.is_leaf() or b.is_leaf():
+            break
+        if bit == '0':
+            bad += a.get_right() is not b.get_right()
+            a, b = a.get_left(), b.get_left()
+        else:
+            bad += a.get_left() is not b.get_left()
+            a, b = a.get_right(), b.get_right()
+    return bad
 
 
 def run_dec(t, pre, body, post):
@@ -779,8 +815,11 @@ def run_tree(tr, cmds):
                 # fresh pairs of the result that do not belong to the inserted node
                 vb = bin(g)[2:]
                 own = [x for x in fresh if not (bin(int(x))[2:].startswith(vb))]
+                hshare[0] = str(offpath_unshared(base, r, g))
                 return '%d/%d/%d/%s/%d' % (c1, c2, c3, root.hex(), len(own))
+            hshare = ['-']
             out.append('%d.hcost=%s' % (k, E(hcost)))
+            out.append('%d.hshare=%s' % (k, hshare[0]))
         elif op == 'vseq':
             import pyimpl_partial
             try:
@@ -1033,6 +1072,8 @@ def run_case(line):
         return run_type(c[1])
     if k == 'hist':
         return run_hist(c[1], c[2], c[3:])
+    if k == 'histf':
+        return run_hist(c[1], c[2], c[3:], fresh=True)
     if k == 'dec':
         return run_dec(c[1], c[2], c[3], c[4])
     if k == 'tree':
